@@ -287,7 +287,7 @@ func c05EnumVars(emit func(C05Case)) {
 	for _, key := range c05VarNames {
 		spec := c05Vars[key]
 		name := c05Instantiate(key)
-		for _, acc := range []string{"get", "set", "unset"} {
+		for _, acc := range []string{"get", "set", "unset", "cmp"} {
 			var prelude []string
 			var probe string
 			var capable bool
@@ -318,6 +318,16 @@ func c05EnumVars(emit func(C05Case)) {
 				capable = spec.Unset
 				capWhy = fmt.Sprintf("unset: %v", spec.Unset)
 				probe = fmt.Sprintf("unset %s;", name)
+			case "cmp":
+				// the variable as the left operand of == with a literal of its table type: a value of another
+				// type (STRING = INTEGER is a legal assignment and would hide it) makes the comparison fail
+				lit := map[string]string{tS: `"zz"`, tI: "1", tF: "1.5", tR: "1s"}[spec.Get]
+				if lit == "" {
+					continue
+				}
+				capable = true
+				capWhy = "get: " + spec.Get + " compared with a " + spec.Get + " literal"
+				probe = fmt.Sprintf("if (%s == %s) { }", name, lit)
 			}
 			for _, ss := range sets {
 				c := C05Case{Product: "B", Kind: "var-" + acc, Name: key, Scopes: ss, Prelude: prelude, Probe: probe}
@@ -890,6 +900,9 @@ func c05LintKey(c C05Case, L bool, lerrs []string) string {
 	case c.Kind == "return" && len(c.Scopes) == 2 && !L && c.T == "allow" && c05HasMsg(lerrs, "is invalid in UNKNOWN, expected"):
 		// lintReturnStatement switches on the exact mode: no action is known for a two-scope mode
 		return "lint.return-action-rejected-in-two-scope-sub"
+	case c.Kind == "var-cmp" && c.Name == "backend.%any%.healthy" && !L && c.T == "allow" && len(lerrs) == 1 && strings.Contains(lerrs[0], "Type mismatch between BOOL and INTEGER"):
+		// same root cause seen through the comparison probe
+		return "table.backend-healthy-typed-integer"
 	case c.Kind == "var-get" && c.Name == "backend.%any%.healthy" && !L && c.T == "allow" && len(lerrs) == 1 && strings.Contains(lerrs[0], "requires type INTEGER but BOOL was assigned"):
 		// predefined.yml types backend.{name}.healthy INTEGER, linter/context/dynamic.go (and Fastly) BOOL
 		return "table.backend-healthy-typed-integer"
@@ -909,7 +922,9 @@ func c05SimKey(c C05Case, scope, class, msg string) string {
 		return "lint.statement-scope-any-instead-of-all"
 	case class == "func-scope" && c.Kind == "func" && len(c.Scopes) == 2 && !c05ScopeAllows(c, scope) && c05AnyScopeAllows(c):
 		return "lint.function-scope-any-instead-of-all"
-	case class == "undefined" && isVar && strings.Contains(msg, "undefined variable "+c05Instantiate(c.Name)):
+	case (class == "undefined" && isVar && strings.Contains(msg, "undefined variable "+c05Instantiate(c.Name))) ||
+		// in a comparison an undefined variable evaluates to NULL: same root causes seen through the comparison probe
+		(class == "type" && c.Kind == "var-cmp" && strings.Contains(msg, "invalid type comparison NULL and ")):
 		for _, fam := range c05UndefinedFamilies {
 			if strings.HasPrefix(c.Name, fam) {
 				return "sim.variable-undefined:" + strings.TrimSuffix(fam, ".")
@@ -923,7 +938,7 @@ func c05SimKey(c C05Case, scope, class, msg string) string {
 			return "sim.variable-undefined:fastly_info.version"
 		case c.Name == "req.digest.ratio" && (scope == "recv" || scope == "hash"):
 			return "sim.variable-undefined:req.digest.ratio-in-recv-hash"
-		case c.Name == "waf.sql_injection_score" && scope == "log" && c.Kind == "var-get":
+		case c.Name == "waf.sql_injection_score" && scope == "log" && (c.Kind == "var-get" || c.Kind == "var-cmp"):
 			return "sim.variable-undefined:waf.sql_injection_score-in-log"
 		case c.Name == "beresp.saintmode" && c.Kind == "var-set":
 			// ProcessSetStatement reads the (write-only) variable before assigning
@@ -931,6 +946,9 @@ func c05SimKey(c C05Case, scope, class, msg string) string {
 		}
 	case class == "undefined" && c.Kind == "var-set" && c.Name == "esi.allow_inside_cdata" && scope == "deliver" && strings.Contains(msg, "is not found or could not set"):
 		return "sim.variable-not-settable:esi.allow_inside_cdata-in-deliver"
+	case class == "type" && c.Kind == "var-cmp" && c.Name == "client.identified" && strings.Contains(msg, "invalid type comparison BOOL and INTEGER"):
+		// same root cause seen through the comparison probe
+		return "sim.value-type-differs-from-table:client.identified"
 	case class == "type" && c.Kind == "var-get" && c.Name == "client.identified" && strings.Contains(msg, "invalid assignment for INTEGER type, got BOOL"):
 		// predefined.yml (and the linter) type it INTEGER, the simulator returns BOOL
 		return "sim.value-type-differs-from-table:client.identified"
